@@ -23,6 +23,7 @@ EXPLANATION = (
 EXPLANATION += ' Added after the seeded-change rounds: ' + "D3 also: the owner's recall flag is raised (release) before the waiting-threads monitor is notified."
 EXPLANATION += ' Added in the third session (round-3 seeds and the findings they led to): ' + 'D5: a cancelled resume task still continues the suspended code (cancel() does what execute() does).'
 EXPLANATION += ' Added later in the fourth round: ' + 'D3 also: the recall flag is the last thing recall_owner writes into the suspend point.  D2 also: r1::resume advertises the resume task with a work type whose advertise_new_work instantiation can switch mandatory concurrency on, and the predicate under which out_of_work switches it off looks at the resume stream.'
+EXPLANATION += ' Added in the fifth seeding round: ' + 'D2 also: the poll of the arena resume stream in receive_or_steal_task is reachable whatever the isolation tag of the waiting thread is (no branch that tests the tag, directly or through a local, dominates it) - resume tasks are exempt from isolation, a thread in an isolated wait must still continue suspended tasks.'
 ASSUMPTIONS = ['__TBB_RESUMABLE_TASKS configuration (Linux)', 'co_context::resume switches stacks and returns when resumed']
 ND = ['the stack switch itself (co_context)', 'continuation on exactly one thread as a runtime fact']
 
@@ -124,6 +125,7 @@ def d2_enqueue(facts, rep):
         rep.ob('D2', 'K4', fn, 'arena reference -> push -> advertise -> drop reference, in this order', ok3,
                'the arena can be destroyed between the push and the wake-up, or the wake-up precedes the push')
     d2_resume_is_starvation_resistant(facts, rep)
+    d2_resume_stream_is_polled_regardless_of_isolation(facts, rep)
     rep.floor('D2', 3, 'resume enqueue')
 
 
@@ -287,3 +289,58 @@ def d5_resume_task_survives_cancellation(facts, rep):
                'thread takes from the resume stream is dropped - the suspended code never continues and the wait that covers it hangs')
     if n < 1:
         raise AnalysisBroken('resume_task::cancel not found')
+
+
+def d2_resume_stream_is_polled_regardless_of_isolation(facts, rep, clause='D2'):
+    """"never forgotten", second half: a thread waiting inside this_task_arena::isolate still takes resume tasks - they are exempt
+    from the isolation filter (their tag is no_isolation; the dispatch loop asserts is_resume_task || isolation matches).  If every
+    thread that could continue a suspended task is in an isolated wait and that wait depends on the continuation, a poll that is
+    skipped under isolation leaves the resume task in the stream for ever.  Rule: in receive_or_steal_task the poll of the arena's
+    resume stream is reachable whatever the isolation parameter is - no branch whose (resolved) condition reads the isolation tag
+    dominates it."""
+    n = 0
+    for fn in facts.get(R1 + 'task_dispatcher::receive_or_steal_task'):
+        defs = Defs(fn)
+        iso_params = set(p['v'] for p in fn.d.get('params', []) if 'isolation' in (p.get('n') or ''))
+        if not iso_params:
+            raise AnalysisBroken('%s: isolation parameter not found' % fn.q)
+
+        def reads_iso(a, truth):
+            src = resolve_cond_source(fn, defs, a)
+            sn = fn.n(src)
+            ops = [src] + ([sn['l'], sn['r']] if sn.get('k') == 'binop' and sn.get('op') in ('==', '!=', '<', '>', '<=', '>=', '&', '|', '&&', '||') else [])
+            # the tag itself is tested (directly or through a local); handing it to a retrieval helper is not a test
+            for o in ops:
+                o = resolve_cond_source(fn, defs, o)
+                on = fn.n(o)
+                if on.get('k') == 'var' and on.get('v') in iso_params:
+                    return True
+                if on.get('k') == 'binop' and on.get('op') in ('==', '!=') and any(
+                        fn.n(fn.strip(z)).get('k') == 'var' and fn.n(fn.strip(z)).get('v') in iso_params for z in (on['l'], on['r'])):
+                    return True
+            return False
+        gated = edges_where(fn, reads_iso)
+        polls = []
+        refs = set()            # local references bound to the arena's resume stream
+        for pos, s, node in fn.stmt_elems(('decl',)):
+            for v in node.get('vars', []):
+                if v.get('init', -1) >= 0 and last_member(fn, v['init']) == 'my_resume_task_stream':
+                    refs.add(v['v'])
+        for pos, s, node, d in calls(fn):
+            for a in list(node.get('a', [])) + ([node['obj']] if node.get('obj', -1) >= 0 else []):
+                x = fn.strip(a)
+                if (fn.n(x).get('k') == 'var' and fn.n(x).get('v') in refs) or last_member(fn, x) == 'my_resume_task_stream':
+                    polls.append((pos, node))
+                    break
+        if not polls:
+            raise AnalysisBroken('%s: no call that receives the resume stream found' % fn.q)
+        for pos, node in polls:
+            n += 1
+            # dominated by gated edges <=> unreachable when every isolation-dependent edge is cut
+            dom = bool(gated) and dominated_by_edges(fn, pos, gated)[0]
+            rep.ob(clause, 'K4', fn, 'the resume stream is polled whatever the isolation of the waiting thread is', not dom,
+                   'the poll of my_resume_task_stream is reached only through a branch on the isolation tag: a thread in an isolated wait never '
+                   'takes resume tasks, and a suspended task whose continuation that wait depends on is never continued', ln=node.get('ln'),
+                   key_extra='resume-poll-iso|' + fn.q[-40:])
+    if n < 1:
+        raise AnalysisBroken('resume stream polls judged: 0')
